@@ -1335,14 +1335,17 @@ class Server:
         async def stor_worker(self, connection, rest):
             stream = connection.data_connection
             del connection.data_connection
-            if connection.restart_offset:
+            # the restart offset applies to this transfer only
+            restart_offset = connection.restart_offset
+            connection.restart_offset = 0
+            if restart_offset:
                 file_mode = "r+b"
             else:
                 file_mode = mode
             file_out = connection.path_io.open(real_path, mode=file_mode)
             async with stream, file_out:
-                if connection.restart_offset:
-                    await file_out.seek(connection.restart_offset)
+                if restart_offset:
+                    await file_out.seek(restart_offset)
                 async for data in stream.iter_by_block(connection.block_size):
                     await file_out.write(data)
             connection.response("226", "data transfer done")
@@ -1379,10 +1382,13 @@ class Server:
         async def retr_worker(self, connection, rest):
             stream = connection.data_connection
             del connection.data_connection
+            # the restart offset applies to this transfer only
+            restart_offset = connection.restart_offset
+            connection.restart_offset = 0
             file_in = connection.path_io.open(real_path, mode="rb")
             async with stream, file_in:
-                if connection.restart_offset:
-                    await file_in.seek(connection.restart_offset)
+                if restart_offset:
+                    await file_in.seek(restart_offset)
                 async for data in file_in.iter_by_block(connection.block_size):
                     await stream.write(data)
             connection.response("226", "data transfer done")
